@@ -19,7 +19,7 @@
    get one run each ("focus runs").  The four env x flag combinations naming a config file
    (spec/ConfigSources.tla) are replayed the same way.
 3. The hook traces of the base runs (Select / Resolved / Collect / Stage / Exists / Inject / Exclude; a seeded
-   sample of 130 runs in the quick tier, 2000 in the thorough tier) are validated by TLC against
+   sample of 100 runs in the quick tier, 2000 in the thorough tier) are validated by TLC against
    spec/ConfigTreeTrace.tla, where the expected value of every logged field is computed from the world's tree
    by the same Effective operator; the check corrupts one field / drops one event of an accepted trace and
    requires the specification to reject it.
@@ -680,7 +680,7 @@ def run_world_once(ctx, T, case, idx, quick):
                     seen.add(m["schema"])
                     focus.append(("reject", m))
         if quick and focus:
-            focus = [focus[idx % len(focus)]]
+            focus = [focus[idx % len(focus)]] if idx % 3 else []      # quick: two worlds out of three get their focus run
         elif not quick:
             kinds = {}
             for x in focus:
@@ -1123,7 +1123,7 @@ def run(ctx):
         stats["runs"] += replay_config_sources(ctx, T, ccases)
     # ---- hook traces
     t1 = time.time()
-    cap = 130 if quick else 2000
+    cap = 100 if quick else 2000
     if len(runs) > cap:
         keep = [x for x in runs if x[1]["fam"] == "packed"][:cap // 2]
         rest = [x for x in runs if x[1]["fam"] != "packed"]
